@@ -92,8 +92,8 @@ def r2(ctx, prog):
             rets_false = [r for r in f.all(kind="ReturnStmt") if f.cv(f.nodes[r].get("val", -1)) == 0 and any(cfg.reaches(q, cfg.pt(r)) for q in succ)]
             w = None
             for r in rets_false:
-                lbl_first = {b["elems"][0] for b in cfg.blocks.values() if b.get("label") == labels[0] and b["elems"]}
-                w = w or cfg.must_pass(succ, [cfg.pt(r)], lambda e: e in lbl_first)
+                lbl_blocks = {b["id"] for b in cfg.blocks.values() if b.get("label") == labels[0]}
+                w = w or cfg.must_pass(succ, [cfg.pt(r)], lambda e: False, edge_ok=lambda lab, p, q: q[0] not in lbl_blocks)
             ctx.check(R, bool(succ) and w is None, f.where(first), "after the initial field was claimed, `return false` is reached only through the roll-back", key="C14.R2:through", witness=w)
         # undo of the initial field is conditional on field == initial_field and clears exactly initial_mask
         for e in undo_cas:
